@@ -176,6 +176,17 @@ func cmdCheck(args []string) int {
 	obls = append(obls, lem...)
 	workers := 3
 	solveAll(P, obls, timeout, all, workers)
+	// inconclusive answers (solver timeouts under load) are retried one at a time with a longer budget;
+	// an unsat answer is a proof whenever it arrives, a sat answer is never overridden
+	var retry []*Obligation
+	for _, o := range obls {
+		if !o.Cover && o.Result != nil && (o.Result.Verdict == "unknown" || o.Result.Verdict == "error") {
+			retry = append(retry, o)
+		}
+	}
+	if len(retry) > 0 && len(retry) <= 10 {
+		solveAll(P, retry, 2*timeout, all, 1)
+	}
 
 	known, fixedList := loadKnown(filepath.Join(*verif, "known_findings.txt"))
 	// group by obligation name
